@@ -221,7 +221,7 @@ func (p *Program) nontrivial() bool {
 
 type bounds struct {
 	MaxLen      int
-	ExtraLen    int // single mappings additionally walk every path of this length (one donor / one sink each)
+	ExtraLen    int      // single mappings additionally walk every path of this length (one donor / one sink each)
 	SetSrc      []string // predecessor root types used for sets of size >= 2
 	Set3Dst     []string // successor types for sets of size 3
 	Set3Cfg     [][]string
